@@ -11,8 +11,10 @@ import (
 
 	"github.com/CrowdStrike/csproto"
 	gogoproto "github.com/gogo/protobuf/proto"
+	golangproto "github.com/golang/protobuf/proto" //nolint
 	"google.golang.org/protobuf/proto"
 	"google.golang.org/protobuf/reflect/protoreflect"
+	"google.golang.org/protobuf/runtime/protoimpl"
 
 	"csverif/internal/prng"
 )
@@ -54,6 +56,33 @@ func apiFor(rt string) *extAPI {
 			},
 			marshal: func(m interface{}) ([]byte, error) { return gogoproto.Marshal(m.(gogoproto.Message)) },
 			number:  func(d interface{}) int { return int(d.(*gogoproto.ExtensionDesc).Field) },
+		}
+	case "v1legacy":
+		// old-style golang/protobuf messages (csproto: MessageTypeGoogleV1): the golang/protobuf v1 API owns them
+		return &extAPI{
+			set: func(m, d, v interface{}) error {
+				return golangproto.SetExtension(m.(golangproto.Message), d.(*golangproto.ExtensionDesc), v)
+			},
+			get: func(m, d interface{}) (interface{}, error) {
+				return golangproto.GetExtension(m.(golangproto.Message), d.(*golangproto.ExtensionDesc))
+			},
+			has: func(m, d interface{}) bool {
+				return golangproto.HasExtension(m.(golangproto.Message), d.(*golangproto.ExtensionDesc))
+			},
+			clear: func(m, d interface{}) {
+				golangproto.ClearExtension(m.(golangproto.Message), d.(*golangproto.ExtensionDesc))
+			},
+			clearAll: func(m interface{}) { golangproto.ClearAllExtensions(m.(golangproto.Message)) },
+			numbers: func(m interface{}) []int32 {
+				ds, _ := golangproto.ExtensionDescs(m.(golangproto.Message))
+				var out []int32
+				for _, d := range ds {
+					out = append(out, int32(d.TypeDescriptor().Number()))
+				}
+				return out
+			},
+			marshal: func(m interface{}) ([]byte, error) { return golangproto.Marshal(m.(golangproto.Message)) },
+			number:  func(d interface{}) int { return int(d.(*golangproto.ExtensionDesc).TypeDescriptor().Number()) },
 		}
 	}
 	// "v1" targets are protoc-gen-go messages used through the golang/protobuf v1 API: they are
@@ -98,7 +127,32 @@ func apiFor(rt string) *extAPI {
 // extValue: a Go value of the dynamic type the runtime expects for the extension kind
 // (pointers to scalars for gogo / golang v1, plain scalars for google v2).
 func (t *Target) extValue(r *prng.Rng, x ExtVar) interface{} {
-	ptr := t.Runtime == "gogo"
+	ptr := t.Runtime == "gogo" || t.Runtime == "v1legacy" // the v1 convention: pointers to scalars
+	// a REPEATED extension: every runtime holds a slice of plain elements ([]int32, [][]byte, []*M)
+	if et := extGoType(x.Desc); et != nil && et.Kind() == reflect.Slice && !(x.Kind == "bytes" && et.Elem().Kind() == reflect.Uint8) {
+		n := 1 + r.Intn(3)
+		sl := reflect.MakeSlice(et, 0, n)
+		for i := 0; i < n; i++ {
+			e := t.extElem(r, x, false)
+			if e == nil {
+				return nil
+			}
+			ev := reflect.ValueOf(e)
+			if ev.Type() != et.Elem() {
+				if !ev.Type().ConvertibleTo(et.Elem()) {
+					return nil
+				}
+				ev = ev.Convert(et.Elem())
+			}
+			sl = reflect.Append(sl, ev)
+		}
+		return sl.Interface()
+	}
+	return t.extElem(r, x, ptr)
+}
+
+// extElem: one value of the extension's kind (ptr: the v1 convention for singular scalars)
+func (t *Target) extElem(r *prng.Rng, x ExtVar, ptr bool) interface{} {
 	u := r.U64Interesting()
 	switch {
 	case x.Kind == "int32" || x.Kind == "sint32" || x.Kind == "sfixed32":
@@ -156,7 +210,11 @@ func (t *Target) extValue(r *prng.Rng, x ExtVar) interface{} {
 		if et == nil {
 			return nil
 		}
-		ev := reflect.New(derefType(et)).Elem()
+		dt := derefType(et)
+		if dt.Kind() == reflect.Slice { // a repeated enum extension: the element type
+			dt = dt.Elem()
+		}
+		ev := reflect.New(dt).Elem()
 		ev.SetInt(int64(u % 3))
 		if ptr {
 			p := reflect.New(ev.Type())
@@ -244,6 +302,10 @@ func (rn *runner) extHistory(t *Target, extendee string, xs []ExtVar, steps int)
 	fail := func(sig, what, want, got string) {
 		Violation("C12", "extensions", sig, what, desc(), want, got)
 	}
+	// the same history for the Lean model of the dispatcher (C12.runCs on the abstract store): one op and one
+	// observed answer per call; values are named by their position in the table of distinct rendered values
+	mh := newModelHistory(a, t.Runtime, xs[0].Desc)
+	defer mh.emit("extensions")
 	for i := 0; i < steps; i++ {
 		x := xs[rn.r.Intn(len(xs))]
 		Journal(fmt.Sprintf("C12 ext %s %s", t.where(extendee), strings.Join(log, " ; ")))
@@ -266,6 +328,7 @@ func (rn *runner) extHistory(t *Target, extendee string, xs []ExtVar, steps int)
 			}
 			if ea == nil {
 				set[x.Num] = valString(v)
+				mh.op(fmt.Sprintf("set %d %d", x.Num, mh.id(valString(v))), "u")
 			}
 		case 3: // Clear
 			log = append(log, fmt.Sprintf("Clear(%s)", x.Name))
@@ -275,6 +338,7 @@ func (rn *runner) extHistory(t *Target, extendee string, xs []ExtVar, steps int)
 			}
 			api.clear(b, x.Desc)
 			delete(set, x.Num)
+			mh.op(fmt.Sprintf("clear %d", x.Num), "u")
 		case 4: // ClearAll
 			log = append(log, "ClearAll")
 			if p := safeCall(func() { csproto.ClearAllExtensions(a) }); p != "" {
@@ -283,6 +347,7 @@ func (rn *runner) extHistory(t *Target, extendee string, xs []ExtVar, steps int)
 			}
 			api.clearAll(b)
 			set = map[int32]string{}
+			mh.op("clearall", "u")
 		default:
 			log = append(log, fmt.Sprintf("Observe(%s)", x.Name))
 		}
@@ -294,6 +359,7 @@ func (rn *runner) extHistory(t *Target, extendee string, xs []ExtVar, steps int)
 				fail("ext/has-panic", "csproto.HasExtension panicked", "no panic", p)
 				return
 			}
+			mh.op(fmt.Sprintf("has %d", y.Num), "b"+b01(has))
 			if has != want || has != api.has(b, y.Desc) {
 				fail("ext/has-incoherent/"+kindClass(y.Kind), "HasExtension disagrees with the history / the runtime", fmt.Sprintf("%s: %v (runtime %v)", y.Name, want, api.has(b, y.Desc)), fmt.Sprint(has))
 				return
@@ -303,6 +369,13 @@ func (rn *runner) extHistory(t *Target, extendee string, xs []ExtVar, steps int)
 			if p := safeCall(func() { gv, ge = csproto.GetExtension(a, y.Desc) }); p != "" {
 				fail("ext/get-panic", "csproto.GetExtension panicked", "no panic", p)
 				return
+			}
+			if want { // (what Get returns for an extension that is not set differs between the runtimes: default value / error)
+				if ge != nil {
+					mh.op(fmt.Sprintf("get %d", y.Num), "err")
+				} else {
+					mh.op(fmt.Sprintf("get %d", y.Num), fmt.Sprintf("v%d", mh.id(valString(gv))))
+				}
 			}
 			rv, re = api.get(b, y.Desc)
 			if (ge == nil) != (re == nil) || (ge == nil && valString(gv) != valString(rv)) {
@@ -320,6 +393,11 @@ func (rn *runner) extHistory(t *Target, extendee string, xs []ExtVar, steps int)
 			}
 		}
 		got, rerr := rangeNumbers(a)
+		if rerr != nil {
+			mh.op("range", "err")
+		} else {
+			mh.op("range", "k"+numList(got))
+		}
 		var want []int32
 		for n := range set {
 			want = append(want, n)
@@ -384,6 +462,86 @@ func (rn *runner) extHistory(t *Target, extendee string, xs []ExtVar, steps int)
 	Count("extensions", t.where(extendee)+strings.Join(log, ";"), "ok", steps, len(log) > 0)
 }
 
+// modelHistory collects one request line for the Lean model of the extension dispatcher (driver command `M ext`)
+type modelHistory struct {
+	mt     int
+	dk     string
+	init   []string
+	ops    []string
+	outs   []string
+	values map[string]int
+}
+
+// descKind: the dynamic type of a descriptor argument as the model names it
+func descKind(d interface{}) string {
+	switch d.(type) {
+	case *gogoproto.ExtensionDesc:
+		return "gogoDesc"
+	case *protoimpl.ExtensionInfo:
+		return "googleInfo"
+	case protoreflect.ExtensionType:
+		return "otherV2Type"
+	}
+	return "other"
+}
+
+func newModelHistory(m interface{}, runtime string, desc interface{}) *modelHistory {
+	dk := "googleInfo"
+	if runtime == "gogo" {
+		dk = "gogoDesc"
+	}
+	if desc != nil {
+		dk = descKind(desc)
+	}
+	return &modelHistory{mt: int(csproto.MsgType(m)), dk: dk, values: map[string]int{}}
+}
+
+func (h *modelHistory) id(rendered string) int {
+	if n, ok := h.values[rendered]; ok {
+		return n
+	}
+	n := len(h.values)
+	h.values[rendered] = n
+	return n
+}
+
+func (h *modelHistory) op(op, out string) {
+	h.ops = append(h.ops, op)
+	h.outs = append(h.outs, out)
+}
+
+func (h *modelHistory) emit(stream string) {
+	if len(h.ops) == 0 {
+		return
+	}
+	init := "-"
+	if len(h.init) > 0 {
+		init = strings.Join(h.init, ",")
+	}
+	Model(stream, fmt.Sprintf("M ext %d %s %s ; %s", h.mt, h.dk, init, strings.Join(h.ops, " ; ")), strings.Join(h.outs, " "))
+}
+
+func b01(b bool) string {
+	if b {
+		return "1"
+	}
+	return "0"
+}
+
+// numList: sorted, comma separated, "-" when empty (the model's list format)
+func numList(ns []int32) string {
+	if len(ns) == 0 {
+		return "-"
+	}
+	c := append([]int32{}, ns...)
+	sort.Slice(c, func(i, j int) bool { return c[i] < c[j] })
+	var parts []string
+	for _, n := range c {
+		parts = append(parts, fmt.Sprint(n))
+	}
+	return strings.Join(parts, ",")
+}
+
 func kindClass(k string) string {
 	if i := strings.Index(k, ":"); i >= 0 {
 		return k[:i]
@@ -409,13 +567,16 @@ func (rn *runner) extMismatch(t *Target, other *Target, extendee string) {
 		return
 	}
 	m := t.Messages[extendee].New()
-	for _, x := range mine[:1+rn.r.Intn(len(mine))] {
-		if v := t.extValue(rn.r, x); v != nil {
-			api.set(m, x.Desc, v)
+	x := theirs[rn.r.Intn(len(theirs))]
+	mh := newModelHistory(m, t.Runtime, x.Desc)
+	for _, y := range mine[:1+rn.r.Intn(len(mine))] {
+		if v := t.extValue(rn.r, y); v != nil {
+			if api.set(m, y.Desc, v) == nil {
+				mh.init = append(mh.init, fmt.Sprintf("%d:%d", y.Num, mh.id(valString(v))))
+			}
 		}
 	}
 	before, _ := api.marshal(m)
-	x := theirs[rn.r.Intn(len(theirs))]
 	desc := map[string]interface{}{"message": t.where(extendee), "descriptor": other.where(extendee) + "." + x.Name}
 	check := func(what string) bool {
 		after, _ := api.marshal(m)
@@ -440,11 +601,137 @@ func (rn *runner) extMismatch(t *Target, other *Target, extendee string) {
 		Violation("C12", "mismatch", "ext/mismatch-set", "SetExtension with another runtime's descriptor must return an error", desc, "error", fmt.Sprint(serr, p))
 		return
 	}
-	safeCall(func() { csproto.ClearExtension(m, x.Desc) }) // documented to panic; the message must stay untouched
+	pc := safeCall(func() { csproto.ClearExtension(m, x.Desc) }) // documented to panic; the message must stay untouched
 	if !check("clear") {
 		return
 	}
+	// the same four calls through the Lean model of the dispatcher, from the same store
+	mh.op(fmt.Sprintf("has %d", x.Num), "b"+b01(has))
+	mh.op(fmt.Sprintf("get %d", x.Num), map[bool]string{true: "err", false: "v?"}[gerr != nil])
+	mh.op(fmt.Sprintf("set %d %d", x.Num, 99), map[bool]string{true: "err", false: "u"}[serr != nil])
+	mh.op(fmt.Sprintf("clear %d", x.Num), map[bool]string{true: "panic", false: "u"}[pc != ""])
+	if got, rerr := rangeNumbers(m); rerr == nil {
+		mh.op("range", "k"+numList(got))
+	}
+	mh.emit("mismatch")
 	Count("mismatch", fmt.Sprint(desc), "refused", 1, true)
+}
+
+// extForeign: a descriptor of the message's OWN runtime that extends ANOTHER message (preferably one whose number
+// is also the number of an extension of this message).  The runtimes differ here — Gogo's Has/Clear only look at
+// the number, Get/Set check the extended type; protobuf-go answers false or panics — and "each result equals what
+// the owning runtime's own extension API returns": the same calls are made through csproto on `a` and through the
+// runtime on a twin `b` with the same contents; wherever the runtime answers, csproto must give the same answer,
+// and the two messages must stay the same message.
+func (rn *runner) extForeign(t *Target, extendee string, mine []ExtVar, foreign []ExtVar) {
+	api := apiFor(t.Runtime)
+	a, b := t.Messages[extendee].New(), t.Messages[extendee].New()
+	var log []string
+	nums := map[int32]bool{}
+	for _, y := range mine {
+		if !rn.r.Chance(2, 3) {
+			continue
+		}
+		if v := t.extValue(rn.r, y); v != nil && api.set(a, y.Desc, v) == nil && api.set(b, y.Desc, v) == nil {
+			nums[y.Num] = true
+			log = append(log, fmt.Sprintf("Set(%s=%d,%s)", y.Name, y.Num, trunc(valString(v), 30)))
+		}
+	}
+	// prefer foreign descriptors whose number is in use in this message
+	var same, rest []ExtVar
+	for _, x := range foreign {
+		if nums[x.Num] {
+			same = append(same, x)
+		} else {
+			rest = append(rest, x)
+		}
+	}
+	pick := append(same, rest...)
+	if len(same) > 0 && rn.r.Chance(3, 4) {
+		pick = same
+	}
+	x := pick[rn.r.Intn(len(pick))]
+	desc := func() map[string]interface{} {
+		return map[string]interface{}{"message": t.where(extendee), "descriptor": fmt.Sprintf("%s (number %d, extends %s)", x.Name, x.Num, x.Extendee), "history": strings.Join(log, " ; ")}
+	}
+	outcome := "same-as-runtime"
+	fail := func(sig, what, want, got string) {
+		outcome = "differs"
+		Violation("C12", "foreign-extendee", sig, what, desc(), want, got)
+	}
+	v := t.extValue(rn.r, x)
+	order := []string{"has", "get", "has", "set", "has", "clear", "has", "get"}
+	if rn.r.Bool() {
+		order = []string{"has", "clear", "has", "get", "set", "has", "get", "clear"}
+	}
+	for _, op := range order {
+		if op == "set" && v == nil {
+			continue
+		}
+		call := func(viaCs bool, m interface{}) (res string) {
+			switch op {
+			case "has":
+				if viaCs {
+					return fmt.Sprint(csproto.HasExtension(m, x.Desc))
+				}
+				return fmt.Sprint(api.has(m, x.Desc))
+			case "get":
+				var gv interface{}
+				var ge error
+				if viaCs {
+					gv, ge = csproto.GetExtension(m, x.Desc)
+				} else {
+					gv, ge = api.get(m, x.Desc)
+				}
+				if ge != nil {
+					return "error"
+				}
+				return valString(gv)
+			case "set":
+				var e error
+				if viaCs {
+					e = csproto.SetExtension(m, x.Desc, v)
+				} else if e = api.set(m, x.Desc, v); e != nil && strings.HasPrefix(e.Error(), "panic: ") {
+					panic(e.Error()) // (the v2 API panics; apiFor turned that into an error)
+				}
+				return fmt.Sprint("error=", e != nil)
+			default:
+				if viaCs {
+					csproto.ClearExtension(m, x.Desc)
+				} else {
+					api.clear(m, x.Desc)
+				}
+				return "done"
+			}
+		}
+		log = append(log, op+"("+x.Name+")")
+		Journal(fmt.Sprintf("C12 foreign %s %s", t.where(extendee), strings.Join(log, " ; ")))
+		var rb, ra string
+		pb := safeCall(func() { rb = call(false, b) })
+		pa := safeCall(func() { ra = call(true, a) })
+		if pb == "" { // the runtime has an answer
+			if pa != "" {
+				fail("ext/foreign-extendee-panic/"+op, "csproto panicked on a descriptor of another extendee where the owning runtime answers", rb, "panic: "+pa)
+				break
+			}
+			if ra != rb {
+				fail("ext/foreign-extendee-differs/"+op, "with a descriptor of the same runtime that extends another message, csproto's answer differs from the owning runtime's", rb, ra)
+				break
+			}
+		}
+		ba, ea := api.marshal(a)
+		bb, eb := api.marshal(b)
+		if ea != nil || eb != nil {
+			continue
+		}
+		da, derr := t.toDyn(extendee, ba)
+		db, _ := t.toDyn(extendee, bb)
+		if derr != nil || db == nil || !proto.Equal(da, db) {
+			fail("ext/foreign-extendee-state/"+op, "after the same call with a descriptor of another extendee, the message driven through csproto and the one driven through the runtime are different messages", hx(bb), hx(ba))
+			break
+		}
+	}
+	Count("foreign-extendee", fmt.Sprint(desc()), outcome, len(order), true)
 }
 
 func family(rt string) string {
@@ -476,6 +763,13 @@ func (rn *runner) runExtensions(ts []*Target, n int) {
 				if o.Schema == t.Schema && family(o.Runtime) != family(t.Runtime) {
 					for i := 0; i < n/4+1; i++ {
 						rn.extMismatch(t, o, e)
+					}
+				}
+			}
+			for _, e2 := range names {
+				if _, ok := t.Messages[e2]; ok && e2 != e {
+					for i := 0; i < n/2+1; i++ {
+						rn.extForeign(t, e, byExt[e], byExt[e2])
 					}
 				}
 			}
